@@ -63,7 +63,7 @@ def gen_sents(rng, seqs):
     return [mx + 1 + ((i * 5) % 4) for i in range(len(seqs))]
 
 def configs(rng, how_many):
-    allc = [(e, st, se, a) for e in "ITB" for st in (0, 1) for se in (0, 1) for a in range(4)]
+    allc = [(e, st, se, a) for e in "ITBS" for st in (0, 1) for se in (0, 1) for a in range(4)]
     if how_many >= len(allc): return allc
     out = []
     for _ in range(how_many): out.append(allc[rng.below(len(allc))])
@@ -72,10 +72,10 @@ def configs(rng, how_many):
 
 # ---------------------------------------------------------------- API surface (audited against multiway_merge.hpp / merge_advance.hpp)
 # profile -> element types it is instantiated for (harness/C05/api_harness.cpp); profile 0 = harness/C05/mwm_harness.cpp
-PROFILES = {0: "ITB", 1: "ITMB", 2: "IB", 3: "T", 4: "IB", 5: "T", 6: "TB", 7: "I"}
+PROFILES = {0: "ITB", 1: "ITMB", 2: "IB", 3: "T", 4: "IB", 5: "T", 6: "TB", 7: "I", 8: "S"}
 def part_of(profile, e):
     if profile == 0: return 0
-    return {1: 1 if e in "IT" else 2, 2: 2 if e == "B" else 3, 3: 1, 4: 3, 5: 1, 6: 3, 7: 2}[profile]
+    return {1: 1 if e in "IT" else 2, 2: 2 if e == "B" else 3, 3: 1, 4: 3, 5: 1, 6: 3, 7: 2, 8: 1}[profile]
 
 API_SURFACE = [
  # public entry points
@@ -101,6 +101,7 @@ API_SURFACE = [
  {"api": "DiffType of merge_advance*: int | long | unsigned | size_t; size of the merges: the iterators' difference_type (long)", "called": True, "by": "P6,P7 | all"},
  {"api": "comparator: std::less / key-only less | std::greater / key-only greater on descending inputs | stateful non-default-constructible counting comparator", "called": True, "by": "P0-P3,P6,P7 | P4 | P5"},
  {"api": "element type: int (4 B) | 16 B record = 2*sizeof(size_t) (largest copy-based loser tree) | 24 B record (smallest pointer-based tree) | 40 B record", "called": True, "by": "I | T | M (P1) | B"},
+ {"api": "element type whose key owns heap memory and whose destructor poisons it (24 B, pointer-based trees): exposes addresses of temporaries / by-value parameters kept by a tree (e.g. the sentinel of LoserTreePointerUnguarded)", "called": True, "by": "S (P8): all entry points, algorithms, k, stable and unstable, sentinels and none"},
  # regimes
  {"api": "regime: every sequence in its own exactly sized heap block (ASan redzones) | all sequences adjacent sub-ranges of ONE buffer (overruns read valid neighbours; caught by the checking iterators / wrong results)", "called": True, "by": "P0,P1,P6 | P4,P5,P7"},
  {"api": "regime: k = 0,1,2 with every algorithm constant; len = 0; all sequences empty; one very long sequence among short/empty ones; len smaller than one sequence; empty first sequence", "called": True, "by": "generator shapes 0-7, every len 0..total for small inputs"},
@@ -111,6 +112,8 @@ def assign_variant(rng, c):
     t = c.split()
     if t[-1].startswith("v="): return c
     e = t[0]
+    if e == "S":
+        return c + " v=8.%d" % rng.below(48)
     if rng.below(100) < 45:
         return c + " v=0.0"
     cand = [p for p in PROFILES if p and e in PROFILES[p]]
@@ -165,7 +168,7 @@ else:
         seqs = gen_seqs(rng, k, SHAPES[rng.below(len(SHAPES))])
         total = sum(len(s) for s in seqs)
         sents = gen_sents(rng, seqs)
-        e = "ITB"[t % 3]
+        e = "ITBS"[t % 4]
         lens = sorted(set([rng.range(0, total), total, max(0, total - 1)]))
         for a in range(4):
             for st in (0, 1):
@@ -182,7 +185,7 @@ else:
         a = (0, 1, 2)[t % 3]
         se = 1 if a == 2 else rng.below(2)
         for ln in range(1, total + 1):
-            cases.append(fmt_case("TB"[t % 2], 1, se, a, ln, seqs, [3] * k))
+            cases.append(fmt_case("TBS"[t % 3], 1, se, a, ln, seqs, [3] * k))
 
 if not ck.replay:
     cases = [assign_variant(rng, c) for c in cases]
